@@ -84,13 +84,20 @@ def gen_configs(tier, rng):
         add(shape, rng.choice("VF"), rng.choice([0, True]),
             rng.choice([0, 7, True]), rng.choice([-1, 3]), 1, (0, 2, 1, 2))
     # (d) preconditioner mode (several level-0 calls), stubbed numerics
-    n_pre = 60 if tier == "quick" else 1500
+    n_pre = 160 if tier == "quick" else 3000
     for _ in range(n_pre):
         shape = [rng.choice([2, 3, 4, 6, 8, 12, 16]) for _ in range(3)]
         add(shape, rng.choice("VWF"), rng.choice(SC_INPUTS),
             rng.choice(LR_INPUTS), rng.choice([-1, 1, 2]),
             rng.choice([2, 3, 5]), rng.choice(NUS),
             ssl=rng.choice(["bicgstab", "cgs", "gcrotmk"]), tol=1e-30)
+    # (d2) systematic: every combination of cycling sc and lr patterns of
+    # different lengths, several preconditioner calls in a row
+    for sc in (True, 12, 1213, 310, 2):
+        for lr in (47, True, 1213, 360, 5):
+            for shape in ((8, 4, 6), (4, 12, 2)):
+                add(shape, rng.choice("VWF"), sc, lr, -1, 3, (0, 2, 1, 2),
+                    ssl=rng.choice(["bicgstab", "cgs", "gcrotmk"]), tol=1e-30)
     # (e) genuine solves (numerics on), stretched and anisotropic
     n_real = 40 if tier == "quick" else 600
     for _ in range(n_real):
